@@ -58,6 +58,19 @@ Deallocate(e) ==
   IN /\ Accept(ok)
      /\ live' = live \ bs /\ pendA' = {} /\ pendF' = {} /\ UNCHANGED sys
 
+\* One request above 4 GiB.  Sizes are split into 2^20-byte units (TLC integers are 32-bit); off = user pointer
+\* minus the base of the one system block obtained for it.  The same conditions as Allocate / Deallocate:
+\* aligned, inside its own system block, nothing freed by allocate; exactly that block freed by deallocate.
+M20 == 1048576
+AllocateBig(e) ==
+  LET lo == e.off + e.bytes_lo
+      hi == e.bytes_hi + (lo \div M20)
+      inside == hi < e.size_hi \/ (hi = e.size_hi /\ lo % M20 <= e.size_lo)
+  IN Accept(e.sig = "none" /\ e.nsys = 1 /\ e.nfree = 0 /\ e.off >= 0 /\ e.pmod = 0 /\ inside)
+     /\ UNCHANGED <<sys, live, pendA, pendF>>
+DeallocateBig(e) == Accept(e.sig = "none" /\ e.frees = 1 /\ e.freed_base = 1 /\ e.fill_ok = 1)
+                    /\ UNCHANGED <<sys, live, pendA, pendF>>
+
 Check(e) == Accept(e.bad = 0) /\ UNCHANGED <<sys, live, pendA, pendF>>
 EndEv(e) == Accept(live = {} => sys = {}) /\ UNCHANGED <<sys, live, pendA, pendF>>
 ResetEv(e) == sys' = {} /\ live' = {} /\ pendA' = {} /\ pendF' = {} /\ UNCHANGED nrej
@@ -71,6 +84,9 @@ Consume == /\ l <= Len(Tr)
                   [] e.e = "check"      -> Check(e)
                   [] e.e = "end"        -> EndEv(e)
                   [] e.e = "reset"      -> ResetEv(e)
+                  [] e.e = "allocate_big"   -> AllocateBig(e)
+                  [] e.e = "deallocate_big" -> DeallocateBig(e)
+                  [] e.e = "big_refused"    -> UNCHANGED <<nrej, sys, live, pendA, pendF>>
                   [] OTHER -> Reject /\ UNCHANGED <<sys, live, pendA, pendF>>
            /\ l' = l + 1
 Done == /\ l = Len(Tr) + 1 /\ PrintT(<<"DONE", Len(Tr), nrej>>)
